@@ -257,7 +257,21 @@ func (r *rig) judge() *gx.Outcome {
 			}
 			for id, n := range cnt {
 				if n > 1 {
-					out.Violate("C05", "duplicate-in-log"+bumped, "partition %d holds %s %d times although the producer is idempotent and the broker enforces sequences: %v (%s); %s", part, id, n, l, cfg, summary())
+					// the recorded epoch-bump family writes the second copy under a LATER epoch (the message is
+					// sequenced or sent again after the bump); copies under one and the same epoch are not it
+					q := bumped
+					if q != "" {
+						ep := map[int16]bool{}
+						for _, x := range r.cl.Part("t", part).Log {
+							if x.ID == id {
+								ep[x.Epoch] = true
+							}
+						}
+						if len(ep) == 1 {
+							q = " same-epoch"
+						}
+					}
+					out.Violate("C05", "duplicate-in-log"+q, "partition %d holds %s %d times although the producer is idempotent and the broker enforces sequences: %v (%s); %s", part, id, n, l, cfg, summary())
 				}
 			}
 		}
